@@ -43,7 +43,7 @@ func (l *Lexer) scanLineStart() Token {
 		return l.scanComment()
 	}
 
-	if l.isWhitespace(l.peek()) && l.peek() != '\n' {
+	if l.isWhitespace(l.peek()) && !l.atLineEnd() {
 		return l.scanIndent()
 	}
 
@@ -69,7 +69,7 @@ func (l *Lexer) scanInLine() Token {
 	r := l.peekRune()
 
 	switch {
-	case ch == '\n':
+	case l.atLineEnd():
 		return l.scanNewline()
 	case ch == ';':
 		return l.scanComment()
@@ -145,7 +145,7 @@ func (l *Lexer) scanCode() Token {
 	l.advance()
 
 	start := l.pos
-	for l.pos < len(l.input) && l.peek() != ')' && l.peek() != '\n' {
+	for l.pos < len(l.input) && l.peek() != ')' && !l.atLineEnd() {
 		l.advance()
 	}
 	value := l.input[start:l.pos]
@@ -162,7 +162,7 @@ func (l *Lexer) scanComment() Token {
 	l.advance()
 
 	start := l.pos
-	for l.pos < len(l.input) && l.peek() != '\n' {
+	for l.pos < len(l.input) && !l.atLineEnd() {
 		l.advance()
 	}
 
@@ -174,7 +174,7 @@ func (l *Lexer) scanIndent() Token {
 	start := l.pos
 	startPos := l.position()
 
-	for l.pos < len(l.input) && l.isWhitespace(l.peek()) && l.peek() != '\n' {
+	for l.pos < len(l.input) && l.isWhitespace(l.peek()) && !l.atLineEnd() {
 		l.advance()
 	}
 
@@ -182,8 +182,20 @@ func (l *Lexer) scanIndent() Token {
 	return Token{Type: TokenIndent, Value: value, Pos: startPos, End: l.position()}
 }
 
+// atLineEnd reports whether the input continues with a line terminator: LF, or CR LF.
+func (l *Lexer) atLineEnd() bool {
+	if l.pos >= len(l.input) {
+		return false
+	}
+	ch := l.input[l.pos]
+	return ch == '\n' || (ch == '\r' && l.pos+1 < len(l.input) && l.input[l.pos+1] == '\n')
+}
+
 func (l *Lexer) scanNewline() Token {
 	startPos := l.position()
+	if l.peek() == '\r' {
+		l.advance()
+	}
 	l.advance()
 	l.line++
 	l.column = 1
@@ -288,7 +300,7 @@ func (l *Lexer) scanQuotedCommodity() Token {
 	l.advance()
 
 	start := l.pos
-	for l.pos < len(l.input) && l.peek() != '"' && l.peek() != '\n' {
+	for l.pos < len(l.input) && l.peek() != '"' && !l.atLineEnd() {
 		l.advance()
 	}
 	value := l.input[start:l.pos]
@@ -400,7 +412,7 @@ func (l *Lexer) scanText() Token {
 
 	for l.pos < len(l.input) {
 		ch := l.peek()
-		if ch == '\n' || ch == ';' || ch == '|' {
+		if l.atLineEnd() || ch == ';' || ch == '|' {
 			break
 		}
 		l.advance()
